@@ -138,7 +138,7 @@ class Ctx:
         g, d = m[-1]
         return {"generated": int(g), "distinct": int(d)}
 
-    def tlc_pipe(self, module, cfg, hargs, overrides=None, workers=None, timeout=1800, label=None, count=True):
+    def tlc_pipe(self, module, cfg, hargs, overrides=None, workers=None, timeout=1800, label=None, count=True, env_extra=None):
         """exhaustive model | harness replay.  Returns (tlc stats, harness summary)."""
         workers = workers or NCPU
         cfgname = self.stage_spec(cfg, overrides)
@@ -147,6 +147,8 @@ class Ctx:
         cmd = ["timeout", str(timeout)] + self.tlc_cmd(module, cfgname, workers)
         env = dict(os.environ)
         env["VERIF_SEED"] = str(self.seed)
+        if env_extra:
+            env.update(env_extra)
         t0 = time.time()
         p1 = subprocess.Popen(cmd, cwd=self.work, stdout=subprocess.PIPE, stderr=subprocess.STDOUT)
         p2 = subprocess.Popen([self.vh] + hargs + ["-tlclog", log, "-first-edge", first], cwd=self.work,
